@@ -305,6 +305,18 @@ def run(chk, repo):
     from rules.shared import optname
     chk.clauses.append('C08.g (shared R-THREAD) an option value bound to a name that is itself a CLI option carries that very option')
     optname(chk, repo, 'C08.g', ['cli.call_novel_orf'], floor=0)
+    # C08.k: the ORF FASTA lists every ORF record handed to write_orf (identity of an ORF = transcript | gene | ORF id | range, not its translation)
+    chk.rule('C08.k', 'R-DRAIN: write_orf writes every ORF record it is given (no filtering / de-duplication in the writer)', 1)
+    chk.clauses.append('C08.k write_orf emits one FASTA record per ORF record: the loop over the records has no condition, continue or break')
+    wo = repo.func('cli.call_novel_orf:write_orf')
+    chk.uses(wo)
+    wl = [l for l in ast.walk(wo.node) if isinstance(l, ast.For) and any(isinstance(c, ast.Call) and call_name(c) == 'write_record' for c in ast.walk(l))]
+    okw = len(wl) == 1 and not any(isinstance(x, (ast.If, ast.Continue, ast.Break, ast.Return, ast.Try)) for x in ast.walk(wl[0])) and \
+        isinstance(wl[0].iter, ast.Name) and wl[0].iter.id in wo.params()
+    bulk = [c for c in ast.walk(wo.node) if isinstance(c, ast.Call) and call_name(c) == 'write_file' and c.args and isinstance(c.args[0], ast.Name) and c.args[0].id in wo.params()]
+    chk.ob('C08.k', 'every record of the parameter is written', wo.where, okw or (not wl and len(bulk) == 1),
+           'write_orf filters / de-duplicates the ORF records it writes (records compare by sequence: ORFs with the same translation on other transcripts vanish from the ORF FASTA '
+           'while peptides are still attributed to them)', key=wo.qual + '::every-record', fn=wo.qual)
     from rules.C10 import rule_thread
     chk.clauses.append('C08.h (shared R-THREAD, with C01.h / C04.g / C06.e / C10.d) the canonical pool that is subtracted is digested with the resolved cleavage parameters (exception name normalised, not the raw --cleavage-exception value)')
     rule_thread(chk, repo, 'C08.h', quals=('cli.common:load_references',))
